@@ -441,7 +441,9 @@ class MeshTri1(MeshSimplex, Mesh2D):
                 ix = np.arange(nelems, dtype=np.int32)
 
             X = mapping.invF(np.array([x, y])[:, None], ix)
-            eps = np.finfo(X.dtype).eps
+            # tolerance for the rounding errors of invF: points on the
+            # boundary of the mesh belong to the mesh
+            eps = 1e4 * np.finfo(X.dtype).eps
             inside = ((X[0] >= -eps) *
                       (X[1] >= -eps) *
                       (1 - X[0] - X[1] >= -eps))
